@@ -18,7 +18,7 @@ SPAN_RS = "prqlc/prqlc-parser/src/span.rs"
 EXPR_RS = "prqlc/prqlc-parser/src/parser/expr.rs"
 PRQLC_PARSER = "prqlc/prqlc/src/parser.rs"
 
-LABELS = ["SU3a", "SU3b", "SU3c", "SU3d", "SU1a", "SU1b", "SU1c", "SU2m", "SU2", "IS0", "IS1", "IS2", "PS1"]
+LABELS = ["SU3a", "SU3b", "SU3c", "SU3d", "SU1a", "SU1b", "SU1c", "SU2m", "SU2o", "SU2", "IS0", "IS1", "IS2", "PS1"]
 FUNCTIONS = ["convert_lexer_error", "compose_location", "map_span_slice", "span_add", "interp_base", "lexed_input"]
 RLIMIT = 60
 
@@ -34,7 +34,7 @@ ASSUMED = [
     {"what": "ariadne Source::get_offset_line(offset) is the uninterpreted offset_line(): Some((line, line index, column)) iff the CHARACTER offset lies in the source "
              "(read in ariadne 0.5.1 source.rs)", "keys": ["struct Source", "spec fn offset_line", "fn get_offset_line", "struct Line"]},
     {"what": "token spans handed to the parser are BYTE ranges of the source (comment in lexer/mod.rs: 'SimpleSpan uses BYTE offsets'); semantic_tokens.get(i) is "
-             "Vec::get", "keys": ["fn tok_get", "struct SimpleSpan", "fn start", "fn end", "fn usize_saturating_sub"]},
+             "Vec::get", "keys": ["fn tok_get", "fn vec_last", "struct SimpleSpan", "fn start", "fn end", "fn usize_saturating_sub"]},
     {"what": "String::len of the content of an interpolation token is the uninterpreted content_len(), at most the number of source characters between the quotes (escape "
              "sequences shrink the content)", "keys": ["fn string_byte_len", "spec fn content_len"]},
     {"what": "prqlc_parser::lexer::lex_source_recovery is external: lexed_text() / lexed_id() of its result are the text and the source id it was given",
@@ -140,6 +140,10 @@ impl SimpleSpan {
     #[verifier::external_body] pub fn end(&self) -> (r: usize) ensures r == self.e(), { unimplemented!() }
 }
 #[verifier::external_body]
+pub fn vec_last(v: &Vec<Token>) -> (r: Option<&Token>)
+    ensures match r { Some(t) => v@.len() > 0 && *t == v@[v@.len() - 1], None => v@.len() == 0 },
+{ unimplemented!() }
+#[verifier::external_body]
 pub fn tok_get(v: &Vec<Token>, i: usize) -> (r: Option<&Token>)
     ensures match r { Some(t) => i < v@.len() && *t == v@[i as int], None => i >= v@.len() },
 { unimplemented!() }
@@ -199,11 +203,28 @@ def build(X):
     ms.rewrite_re("R5", r"\b(\w+)\.saturating_sub\((\d+)\)", r"usize_saturating_sub(\1, \2)", count=None, why="usize::saturating_sub")
     ms.rewrite("R3", ".map(|t| t.span.start)", ".map(|t: &Token| -> (r: usize) ensures r == t.span.start { t.span.start })", count=None, why="closure contract from its body")
     ms.rewrite("R3", ".map(|t| t.span.end)", ".map(|t: &Token| -> (r: usize) ensures r == t.span.end { t.span.end })", count=None, why="closure contract from its body")
-    ms.text = ("pub fn map_span_slice(semantic_tokens: &Vec<Token>, simple_span: SimpleSpan, source_id: u16) -> (r: Span)\n"
+    # the statements of parse_lr_to_pr in front of the comment filter (locals the closure may capture): real text, in front of the closure body
+    whole = X.fn(PARSER, "parse_lr_to_pr")
+    mpre = re.search(r"\{\n(.*?)(?:[ \t]*//[^\n]*\n)*[ \t]*let semantic_tokens: Vec<_> = lr\s*\.into_iter\(\)", whole.text, re.S)
+    if not mpre:
+        raise ExtractionError("parse_lr_to_pr: `let semantic_tokens: Vec<_> = lr.into_iter()..` not found")
+    prefix = re.sub(r"\blr\.last\(\)", "vec_last(&lr)", mpre.group(1))
+    prefix = prefix.replace(".map(|t| t.span.start)", ".map(|t: &Token| -> (r: usize) ensures r == t.span.start { t.span.start })")
+    prefix = prefix.replace(".map(|t| t.span.end)", ".map(|t: &Token| -> (r: usize) ensures r == t.span.end { t.span.end })")
+    ms.text = ("pub fn map_span_slice(lr: &Vec<Token>, semantic_tokens: &Vec<Token>, simple_span: SimpleSpan, source_id: u16) -> (r: Span)\n"
+               "    requires\n"
+               "        // the lexer's tokens lie one behind the other; the semantic tokens are those of them that are not comments (in order): the last semantic token\n"
+               "        // does not end behind the last token\n"
+               "        forall|i: int, j: int| 0 <= i <= j < semantic_tokens@.len() ==> (#[trigger] semantic_tokens@[i]).span.start <= (#[trigger] semantic_tokens@[j]).span.end,\n"
+               "        semantic_tokens@.len() > 0 ==> (lr@.len() > 0 && semantic_tokens@[semantic_tokens@.len() - 1].span.end <= lr@[lr@.len() - 1].span.end),\n"
                "    ensures\n"
                "        // parser spans are built from the BYTE ranges of the first and last token\n"
                "        (simple_span.s() < semantic_tokens@.len()) ==> r.start == semantic_tokens@[simple_span.s() as int].span.start, // @SU2m\n"
-               "{\n    " + ms.text + "\n}\n")
+               "        // a span of at least one token, and the span of the end of the input, do not end in front of their start (ariadne asserts it and panics)\n"
+               "        (simple_span.s() < simple_span.e() || simple_span.s() >= semantic_tokens@.len()) ==> r.start <= r.end, // @SU2o\n"
+               "{\n" + prefix + "\n    " + ms.text + "\n}\n")
+    ms.rewrites.append({"rule": "slice", "what": "the statements of parse_lr_to_pr in front of `let semantic_tokens = ..` (locals the closure captures; `lr.last()` -> vec_last, R5) are kept in front of the closure body; "
+                        "`lr` (the unfiltered tokens) is a parameter next to `semantic_tokens`, related by the precondition"})
     ms.rewrites.append({"rule": "slice", "what": "body of the map_span closure of parse_lr_to_pr wrapped as fn map_span_slice(semantic_tokens, simple_span, source_id)"})
     su2 = r"""
 // SU2: ErrorMessages::composed hands every Error.span to ariadne, which counts CHARACTERS (it asserts that the location exists).
@@ -305,12 +326,22 @@ INTERP_ERRORS = ['from clients\nderive fiche = f"{nom}\\t{né le}"\nselect {nom,
                  'from t\nderive x = f"\\u{e9}\\u{e9}{ü ü}é"\n']
 
 
+# errors at the end of the input (ASCII only), with and without a comment as the very last token
+EOI_ERRORS = ["from invoices\nselect {customer_id, total,   # the columns we need", "from a\nselect {x,\n# trailing comment", "from a\nfilter x > # why", "from a\nselect {", "from a | derive y = (x +"]
+
+
 def replay(failure):
     """SU2: a syntax error after non-ASCII text; the parser's byte span exceeds the character count of the source.
     SU3*: a LEXER error after non-ASCII text (the span must be in characters).  IS*: where an error inside an f-string is reported."""
     if ".IS" in failure["obligation"] or failure["obligation"].endswith(("span_add.safety", "interp_base.safety")):
         for src, pos in POSITION_CASES:
             r = _try_position(src, pos)
+            if r["failing"]:
+                return r
+        return {"failing": False}
+    if failure["obligation"].endswith("SU2o"):
+        for src in EOI_ERRORS:
+            r = _try(src)
             if r["failing"]:
                 return r
         return {"failing": False}
@@ -346,6 +377,10 @@ def sweep():
     for src in INTERP_ERRORS:
         r = _try(src)
         r["obligation"] = "span_units.lexed_input.safety"
+        out.append(r)
+    for src in EOI_ERRORS:
+        r = _try(src)
+        r["obligation"] = "span_units.SU2o"
         out.append(r)
     for src, pos in POSITION_CASES:
         r = _try_position(src, pos)
